@@ -50,6 +50,13 @@ type Tainter struct {
 	paramMemo     map[*ssa.Parameter]Taint
 	callers       map[*ssa.Function][]ssa.CallInstruction
 	mask          map[*ssa.Function]bool
+	curReach      map[*ssa.Function]map[int]bool // parameters reached while a result summary is being computed
+	reachMemo     map[*ssa.Function]map[int]bool // parameters a function's results depend on (outside hash inputs)
+	clock         int               // increases with every value whose evaluation begins
+	inProgAt      map[ssa.Value]int // clock at which the evaluation of an in-progress value began
+	frames        []*sumFrame       // summaries (function results, parameters) being computed, innermost last
+	retProg       map[*ssa.Function]int
+	paramProg     map[*ssa.Parameter]int
 	masked        int
 	OwnTypes      map[*types.Named]bool // objects only the party itself builds (its own secret key): fields are KEY whatever peers' copies of the same type hold
 	TrustedFields map[string]bool       // names of fields holding key data handed in by the application (validated by this library's keygen)
@@ -135,6 +142,9 @@ func (t *Tainter) Of(v ssa.Value) Taint {
 }
 
 func (t *Tainter) of(v ssa.Value, d int) Taint {
+	if tr := os.Getenv("VERIF_OF_TRACE"); tr != "" && v != nil && v.Parent() != nil && strings.Contains(v.Parent().String(), tr) {
+		fmt.Fprintf(os.Stderr, "OF %*s%s = %s (masked %d, inProg %v)\n", d, "", v.Name(), v.String(), t.masked, t.inProg[v])
+	}
 	r := t.of1(v, d)
 	if t.Trace && r&TWire != 0 && v != nil {
 		where := ""
@@ -152,16 +162,52 @@ func (t *Tainter) of1(v ssa.Value, d int) Taint {
 	if v == nil {
 		return 0
 	}
-	if d > 40 || t.inProg[v] {
+	if d > 40 {
+		t.cutFrames(0) // depth bound: every summary being computed is incomplete
+		return 0
+	}
+	if t.inProg[v] {
+		// a cycle: harmless for the summaries that began after v's evaluation did (v's own result
+		// will include them), but summaries begun before see an incomplete operand
+		t.cutFrames(t.inProgAt[v])
 		return 0
 	}
 	t.inProg[v] = true
+	t.clock++
+	if t.inProgAt == nil {
+		t.inProgAt = map[ssa.Value]int{}
+	}
+	t.inProgAt[v] = t.clock
 	defer delete(t.inProg, v)
 	v = Strip(v)
 	// curves and their parameters are configuration, never attacker-chosen numbers
 	if ts := v.Type().String(); ts == "crypto/elliptic.Curve" || ts == "*crypto/elliptic.CurveParams" {
 		return TConst
 	}
+	// a *big.Int is a mutable object: it also carries what every in-place setter applied to the same
+	// object (in this function) was given — `i := new(big.Int); i.Add(x, y); return i.Mod(i, m)`
+	var bigU Taint
+	if isBigPtr(v.Type()) {
+		root := BigRoot(v)
+		for _, m := range BigMuts(root) {
+			if ssa.Value(m) == v {
+				continue
+			}
+			for _, a := range m.Call.Args[1:] {
+				bigU |= t.of(a, d+1)
+			}
+		}
+		if root != v {
+			bigU |= t.of(root, d+1)
+		}
+	}
+	if bigU != 0 {
+		return bigU | t.of2(v, d)
+	}
+	return t.of2(v, d)
+}
+
+func (t *Tainter) of2(v ssa.Value, d int) Taint {
 	switch x := v.(type) {
 	case *ssa.Const:
 		return TConst
@@ -192,11 +238,30 @@ func (t *Tainter) of1(v ssa.Value, d int) Taint {
 				}
 			}
 			if fa, ok := in.(*ssa.FieldAddr); ok && fa.X == self && fa.Referrers() != nil {
-				for _, r := range *fa.Referrers() {
-					if st, ok := r.(*ssa.Store); ok && st.Addr == fa {
-						u |= t.of(st.Val, d+1)
+				// stores to the field, and to elements / sub-fields of an array or struct field
+				var sub func(addr ssa.Value, depth int)
+				sub = func(addr ssa.Value, depth int) {
+					if depth > 4 || addr.Referrers() == nil {
+						return
+					}
+					for _, r := range *addr.Referrers() {
+						switch y := r.(type) {
+						case *ssa.Store:
+							if y.Addr == addr {
+								u |= t.of(y.Val, d+1)
+							}
+						case *ssa.IndexAddr:
+							if y.X == addr {
+								sub(y, depth+1)
+							}
+						case *ssa.FieldAddr:
+							if y.X == addr {
+								sub(y, depth+1)
+							}
+						}
 					}
 				}
+				sub(fa, 0)
 			}
 		})
 		if u == 0 {
@@ -427,6 +492,50 @@ func (t *Tainter) trustedBase(fr *FieldRef) bool {
 	return false
 }
 
+// sumFrame: one summary under computation. It is exact unless the walk was cut at a value whose own
+// evaluation began before the summary did (the summary then misses what that value will contribute).
+type sumFrame struct {
+	start int
+	cut   bool
+}
+
+func (t *Tainter) pushFrame() *sumFrame {
+	t.clock++
+	f := &sumFrame{start: t.clock}
+	t.frames = append(t.frames, f)
+	return f
+}
+
+func (t *Tainter) popFrame() { t.frames = t.frames[:len(t.frames)-1] }
+
+// cutFrames marks incomplete every summary that began at or after clock `at`.
+func (t *Tainter) cutFrames(at int) {
+	for i := len(t.frames) - 1; i >= 0 && t.frames[i].start >= at; i-- {
+		t.frames[i].cut = true
+	}
+}
+
+// cutFramesAfter marks incomplete every summary that began after the frame that started at `at`.
+func (t *Tainter) cutFramesAfter(at int) {
+	for i := len(t.frames) - 1; i >= 0 && t.frames[i].start > at; i-- {
+		t.frames[i].cut = true
+	}
+}
+
+// noteReach records that the result being summarised depends on parameter p.
+func (t *Tainter) noteReach(p *ssa.Parameter) {
+	fn := p.Parent()
+	m := t.curReach[fn]
+	if m == nil {
+		return
+	}
+	for i, q := range fn.Params {
+		if q == p {
+			m[i] = true
+		}
+	}
+}
+
 // maskedRoot: the field is read from an object reached from a parameter of a function whose result
 // summary is being computed: that object's content is accounted for by the actual argument.
 func (t *Tainter) maskedRoot(fr *FieldRef) bool {
@@ -438,7 +547,11 @@ func (t *Tainter) maskedRoot(fr *FieldRef) bool {
 		base = Strip(base)
 		switch x := base.(type) {
 		case *ssa.Parameter:
-			return t.mask[x.Parent()]
+			if t.mask[x.Parent()] {
+				t.noteReach(x)
+				return true
+			}
+			return false
 		case *ssa.UnOp:
 			if x.Op != token.MUL {
 				return false
@@ -481,12 +594,23 @@ func (t *Tainter) fieldTaint(fr *FieldRef, d int) Taint {
 func (t *Tainter) param(p *ssa.Parameter, d int) Taint {
 	fn := p.Parent()
 	if t.mask[fn] {
+		t.noteReach(p)
+		return 0
+	}
+	if at, busy := t.paramProg[p]; busy {
+		t.cutFramesAfter(at)
 		return 0
 	}
 	if m, ok := t.paramMemo[p]; ok {
 		return m
 	}
-	t.paramMemo[p] = 0
+	if t.paramProg == nil {
+		t.paramProg = map[*ssa.Parameter]int{}
+	}
+	fr := t.pushFrame()
+	t.paramProg[p] = fr.start
+	defer delete(t.paramProg, p)
+	defer t.popFrame()
 	var u Taint
 	if t.Entry[fn] {
 		u |= TWire
@@ -527,8 +651,8 @@ func (t *Tainter) param(p *ssa.Parameter, d int) Taint {
 			u |= TKey // API boundary: configuration supplied by the application
 		}
 	}
-	if t.masked == 0 {
-		t.paramMemo[p] = u
+	if t.masked == 0 && (!fr.cut || u&TWire != 0) {
+		t.paramMemo[p] = u // exact, or already at the top of the lattice for what the rules ask (WIRE)
 	} else {
 		delete(t.paramMemo, p)
 	}
@@ -565,11 +689,19 @@ func (t *Tainter) call(c *ssa.Call, d int) Taint {
 	if c.Call.IsInvoke() {
 		u |= t.of(c.Call.Value, d+1)
 	}
-	for _, a := range c.Call.Args {
-		u |= t.of(a, d+1)
-	}
+	// a module function with a body: its result draws on its own sources (ret) and on those arguments
+	// its result actually depends on — an argument that only feeds a hash inside the helper
+	// (challenge helpers) does not make the result peer-chosen
+	var reach map[int]bool
 	if g := Callee(c); g != nil && g.Blocks != nil && inModule(g) {
 		u |= t.ret(g, d)
+		reach = t.reachMemo[g]
+	}
+	for i, a := range c.Call.Args {
+		if reach != nil && !reach[i] {
+			continue
+		}
+		u |= t.of(a, d+1)
 	}
 	if u == 0 {
 		u = TConst
@@ -579,18 +711,35 @@ func (t *Tainter) call(c *ssa.Call, d int) Taint {
 
 // ret: origin classes a module function's results draw from internally (samplers, hashes, fields).
 func (t *Tainter) ret(g *ssa.Function, d int) Taint {
+	if at, busy := t.retProg[g]; busy {
+		t.cutFramesAfter(at) // recursion: the summaries begun inside g's own are incomplete
+		return 0
+	}
 	if m, ok := t.retMemo[g]; ok {
 		return m
 	}
-	t.retMemo[g] = 0
+	if t.retProg == nil {
+		t.retProg = map[*ssa.Function]int{}
+	}
+	fr := t.pushFrame()
+	t.retProg[g] = fr.start
+	defer delete(t.retProg, g)
+	defer t.popFrame()
 	var u Taint
+	complete := false
 	if d < 12 {
 		// the function's own parameters are accounted for by the actual arguments at each call site
 		if t.mask == nil {
 			t.mask = map[*ssa.Function]bool{}
 		}
+		if t.curReach == nil {
+			t.curReach = map[*ssa.Function]map[int]bool{}
+			t.reachMemo = map[*ssa.Function]map[int]bool{}
+		}
 		was := t.mask[g]
+		wasReach := t.curReach[g]
 		t.mask[g] = true
+		t.curReach[g] = map[int]bool{}
 		t.masked++
 		for _, ret := range Returns(g) {
 			for _, r := range ret.Results {
@@ -599,11 +748,22 @@ func (t *Tainter) ret(g *ssa.Function, d int) Taint {
 		}
 		t.masked--
 		t.mask[g] = was
+		// the summary is exact only when the walk was not cut (a value already being evaluated further
+		// up, or the depth bound) — otherwise it is not kept and every argument counts
+		if !fr.cut && t.masked == 0 {
+			complete = true
+			t.reachMemo[g] = t.curReach[g]
+			if os.Getenv("VERIF_REACH_TRACE") != "" && strings.Contains(g.String(), os.Getenv("VERIF_REACH_TRACE")) {
+				fmt.Fprintf(os.Stderr, "REACH %s = %v (taint %s)\n", g.String(), t.curReach[g], u)
+			}
+		}
+		t.curReach[g] = wasReach
 	}
 	u &^= TConst
-	if t.masked == 0 {
+	if complete {
 		t.retMemo[g] = u
 	} else {
+		delete(t.reachMemo, g)
 		delete(t.retMemo, g)
 	}
 	return u
